@@ -257,8 +257,8 @@ pub fn streams() -> Vec<Box<dyn AnyStream>> {
         }),
         Box::new(Stream::<Case> {
             name: "tuples",
-            quick: 40_000,
-            thorough: 2_000_000,
+            quick: 100_000,
+            thorough: 10_000_000,
             source: Source::Gen(Box::new(strategy)),
             check: Box::new(check),
         }),
